@@ -181,7 +181,9 @@ def check_property(pid, tier, seed, write_evidence=True):
 
     for bname in P.get("bounded", []):
         tb0 = time.time()
-        br = BOUNDED[bname](seed, thorough=(tier == "thorough"))
+        # an obligation that no longer proves (undecided) or a function the contract cannot bind to is never a violation by
+        # itself; the bounded stand-ins of the property then run at their thorough size
+        br = BOUNDED[bname](seed, thorough=(tier == "thorough" or bool(undecided) or bool(errors)))
         # a bounded check may serve several properties: keep the violations tagged for this one (untagged: all)
         mine = []
         for v_ in br["violations"]:
